@@ -150,6 +150,7 @@ instance instFloatLikeR64 : FloatLike R64 where
   round := fun a => ⟨roundR a.v, rep_roundR a.rep⟩
   fract := fun a => ⟨fractR a.v, rep_fractR a.rep⟩
   isNormal := fun a => decide ((1:ℝ) / 2 ^ 1022 ≤ |a.v|)
+  isFinite := fun _ => true
   sqrt := fun a => ofReal (Real.sqrt a.v)
   fmax := fun a b => ⟨max a.v b.v, rep_max a.rep b.rep⟩
   toUsize := fun a => ⌊a.v⌋₊
@@ -227,6 +228,7 @@ instance instFloatSpecR64 : FloatSpec R64 where
   fract_spec := fun {a} _ => ⟨trivial, fractR_eq_zero_iff a.v⟩
   fmax_spec := fun _ _ => ⟨trivial, rfl⟩
   isNormal_spec := fun {a} _ => by show decide ((1:ℝ) / 2 ^ 1022 ≤ |a.v|) = true ↔ _; simp
+  isFinite_spec := fun _ => rfl
   flt_spec := fun {a b} _ _ => by show decide (a.v < b.v) = true ↔ _; simp
   fle_spec := fun {a b} _ _ => by show decide (a.v ≤ b.v) = true ↔ _; simp
   feq_spec := fun {a b} _ _ => by show decide (a.v = b.v) = true ↔ _; simp
